@@ -738,8 +738,9 @@ def extract(root=PKG_ROOT):
     return extract_from(Extractor(root).run())
 
 
-def extract_from(ex):
-    deco = extract_decorators(ex.pkg)
+def extract_from(ex, deco=None):
+    if deco is None:
+        deco = extract_decorators(ex.pkg)
     toml = toml_parameter_names(ex.pkg)
     for a in ex.aliases:
         a['final'] = None
@@ -1203,7 +1204,13 @@ def kw_cases(ctx, tab):
     cases = []
     for k in tab['kwuses']:
         q = f'{k["mod"]}:{k["owner"]}' if k['owner'] else ''
+        live = [p['name'] for p in k['params'] if p['kind'] in ('PosOrKw', 'KwOnly')] + list(k['extra'])
         for o, n in k['map']:
+            # the new keyword the OLD SPELLING designates (folded-name match among the live parameters), when there is
+            # one; otherwise the one the map names
+            des = [p for p in live if fold(p) == fold(o)]
+            if n is not None and len(des) == 1:
+                n = des[0]
             for v in range(ctx.n(1, 3)):
                 cases.append({'kind': 'kw', 'cls': q, 'mod': k['mod'], 'func': k['name'], 'okw': o, 'nkw': n, 'variant': v,
                               'seed': rng.randrange(10 ** 6), 'via': None})
@@ -1282,6 +1289,9 @@ def stream_kwloop(ctx):
         if not r['ok']:
             st.disagree(c, 'the wrapper returns', r)
             continue
+        if any(not isinstance(x, int) or isinstance(x, bool) for _, x in r['kwargs']):
+            st.disagree(c, 'every forwarded value is one of the passed values', r)
+            continue
         if r['args'] != c['args'] or any(e[0] == 'other' for e in r['events']):
             st.disagree(c, 'positional arguments forwarded unchanged, only DeprecationWarnings', r)
             continue
@@ -1328,8 +1338,16 @@ def run(ctx):
     try:
         ex = Extractor().run()
         pkg = ex.pkg
-        tab = extract_from(ex)
-        ctx.gen('AliasTable', emit(tab))
+        try:
+            deco = extract_decorators(pkg)
+        except Untranslatable as e:
+            # the decorators left the modelled forms: the tie is broken and Gen/ is not regenerated, but the
+            # alias tables are still needed to look for a failing input
+            ctx.tie_broken('py2v:AliasTable(decorators)', str(e))
+            deco = {'flag': None, 'prog': None}
+        tab = extract_from(ex, deco)
+        if deco['prog'] is not None:
+            ctx.gen('AliasTable', emit(tab))
     except Untranslatable as e:
         ctx.tie_broken('py2v:AliasTable', str(e))
     import time
